@@ -71,7 +71,10 @@ class ObjectiveMaximizeIndicator(Objective):
 class ObjectiveMinimizeIndicator(Objective):
     def __init__(self, **data) -> None:
         target = data["target"]
-        weight = data["weight"]
+        if "weight" in data:
+            weight = data["weight"]
+        else:
+            weight = 1
         super().__init__(
             name=f"Minimize{target.name}",
             target=target,
